@@ -210,34 +210,33 @@ def minmaxnorm_h(view, nl, thorough=False):
     add(f"c10_minmaxnorm_{view}_{ns(nl)}", B, max(nl) + 4, thorough)
 
 
-def resid_h(kind, view, nl, thorough=False):
-    """fixed values; NaN masks of the first series (second all valid) and of the second series (first all valid)
-    enumerated by a concrete loop, windows 1..=N+3 by a concrete loop, min_periods symbolic (it alone decides whether
-    the kernel's j-loop over the window runs)"""
+def resid_h(kind, view, nl, thorough=False, masks=None):
+    """Float-heavy kernels (safety only). Their indices never depend on a data *value*: they are the driver's
+    start/end, and the data only gates — through `n >= min_periods` — whether the j-loop over the window runs.
+    * masks is None (DefView): fixed values, symbolic NaN masks, symbolic window, symbolic min_periods.
+    * masks = [(ma, mb)] (fast-path inputs): fixed values, the listed concrete NaN masks, windows 1..=N+3 by a concrete
+      loop, min_periods symbolic — so that every float operation constant-folds (CBMC does not finish the fast path
+      with symbolic positions in the float data: > 600 s at N = 2)."""
     B = []
     for n in nl:
         B.append("{")
         B.append(f"    let mp = any_mp::<{n}>();")
-        B.append("    let mut m = 0usize;")
-        B.append(f"    while m < 2 * (1 << {n}) {{")
-        B.append(f"        let (ma, mb) = if m < (1 << {n}) {{ (m, 0) }} else {{ (0, m - (1 << {n})) }};")
-        B.append(f"        let a = f64_masked::<{n}>(1, ma);")
-        B.append(f"        let b = f64_masked::<{n}>(2, mb);")
-        if view == "vec":
-            B += ["        let va: Vec<f64> = a.to_vec();", "        let vb: Vec<f64> = b.to_vec();"]
-        elif view == "arr":
-            B += ["        let va = a;", "        let vb = b;"]
+        if masks is None:
+            B += ["    " + x for x in view_f64(view, n)]
+            B += ["    " + x for x in wloop(view, n, [f"k_resid_{kind}::<_, _, {n}>(&va, &vb, w, mp);"])]
         else:
-            B += ["        let va = DefView(&a[..]);", "        let vb = DefView(&b[..]);"]
-        B.append("        let mut w = 1usize;")
-        B.append(f"        while w <= {n} + 3 {{")
-        B.append(f"            k_resid_{kind}::<_, _, {n}>(&va, &vb, w, mp);")
-        B.append("            w += 1;")
-        B.append("        }")
-        B.append("        m += 1;")
-        B.append("    }")
+            for ma, mb in masks:
+                B.append("    {")
+                B.append(f"        let a = f64_masked::<{n}>(1, {ma});")
+                B.append(f"        let b = f64_masked::<{n}>(2, {mb});")
+                if view == "vec":
+                    B += ["        let va: Vec<f64> = a.to_vec();", "        let vb: Vec<f64> = b.to_vec();"]
+                else:
+                    B += ["        let va = a;", "        let vb = b;"]
+                B += ["        " + x for x in wloop(view, n, [f"k_resid_{kind}::<_, _, {n}>(&va, &vb, w, mp);"])]
+                B.append("    }")
         B.append("}")
-    add(f"c10_resid_{kind}_{view}_{ns(nl)}", B, 2 * (1 << max(nl)) + 2, thorough)
+    add(f"c10_resid_{kind}_{view}_{ns(nl)}", B, max(nl) + 4, thorough)
 
 
 def vrank_h(view, nl, thorough=False):
@@ -296,7 +295,11 @@ def layer2():
             cmp_h(k, view, [4], True)
         minmaxnorm_h(view, [3]); minmaxnorm_h(view, [1, 2], True); minmaxnorm_h(view, [4], True)
         for kind in ("mean", "std", "skew"):
-            resid_h(kind, view, [3]); resid_h(kind, view, [1, 2], True); resid_h(kind, view, [4], True)
+            if view == "arr":
+                resid_h(kind, view, [3], False, [(0, 0), (0b010, 0b001)])
+            else:
+                resid_h(kind, view, [3], kind != "mean")          # std 560 s, skew > 600 s measured
+                resid_h(kind, view, [2], True)
         vrank_h(view, [0, 1, 2]); vrank_h(view, [3]); vrank_h(view, [4], True)
         quantile_h(view, [3]); quantile_h(view, [0, 1, 2], True); quantile_h(view, [4], True)
         # varg_partition indexes the input with the sorted positions; vpartition works on a copy
